@@ -158,13 +158,15 @@ def parse_sections(line):
 
 def parse_impl(line):
     """-> dict(alone, conc, cells, seen, flags, x) or {'bad': reason}"""
+    if line.startswith('INVALID'):
+        return {'invalid': True}
     m = re.match(r'A: (.*) ## C: (.*) ## X: (.*)$', line)
     if not m:
         tail = re.search(r'(CRASH\(\d+\)|TIMEOUT|EXIT\(\d+\))\s*$', line)
         return {'bad': tail.group(1) if tail else 'malformed transcript'}
     if re.search(r'(CRASH\(\d+\)|TIMEOUT|EXIT\(\d+\))\s*$', line):
         return {'bad': re.search(r'(CRASH\(\d+\)|TIMEOUT|EXIT\(\d+\))\s*$', line).group(1)}
-    alone = parse_sections(m.group(1) + ' #  #  # ok')
+    alone = parse_sections(m.group(1) + ' #  #  # ok') if m.group(1).strip() else ({}, '', '', 'ok')
     conc = parse_sections(m.group(2))
     if not alone or not conc:
         return {'bad': 'malformed transcript'}
@@ -206,8 +208,27 @@ def first_diff(a, b):
     return 'length %d / %d' % (len(a), len(b))
 
 
+def spawned(case):
+    """threads the main program starts (a thread that is never started never runs)"""
+    f = case.split('|')
+    return {0} | {int(t[1:]) for t in f[2].split() if t[0] == 'S' and t[1:].isdigit()}
+
+
+def joined_peeks(case):
+    """for every P<u> of the main program (in order): was it preceded by J<u> and S<u>?"""
+    res, joined, started = [], set(), set()
+    for t in case.split('|')[2].split():
+        if t[0] == 'S' and t[1:].isdigit(): started.add(t[1:])
+        elif t[0] == 'J' and t[1:].isdigit() and t[1:] in started: joined.add(t[1:])
+        elif t[0] == 'P' and t[1:].isdigit(): res.append(t[1:] in joined)
+    return res
+
+
 def oracle(case, impl, spec):
     p = parse_impl(impl)
+    if 'invalid' in p:
+        return None        # out of contract (aborts / deadlocks / leaves a mutex held in the machine): not judged
+    live = spawned(case)
     if 'bad' in p:
         return 'the run did not complete: %s' % p['bad']
     for t, tr in sorted(p['conc'].items()):
@@ -218,7 +239,7 @@ def oracle(case, impl, spec):
         return 'a probe object was finalised by a thread that did not allocate it (cross=%s)' % p['x']['cross']
     for t, tr in sorted(p['alone'].items()):
         a, c = canon(tr), canon(p['conc'].get(t, []))
-        if t == 0:
+        if t == 0 or t not in live:
             continue
         if a != c:
             return 'thread %d computes a different trace with the others than alone: %s' % (t, first_diff(c, a))
@@ -228,11 +249,14 @@ def oracle(case, impl, spec):
         return 'counter guarded by a Mutex lost updates: %s' % p['x']['lost']
     # join publishes: what the joiner read = the complete trace of the joined thread
     if p['seen']:
-        for item in p['seen'].split(';'):
+        ok_peeks = joined_peeks(case)
+        for n, item in enumerate(p['seen'].split(';')):
             m = re.match(r'(\d+):P(\d+)=\[(.*)\]$', item)
             if not m:
                 return 'malformed peek ' + item
             u = int(m.group(2))
+            if n >= len(ok_peeks) or not ok_peeks[n]:
+                continue       # a read without a preceding join promises nothing
             if m.group(3).split(',') != p['conc'].get(u, []) and not (m.group(3) == '' and not p['conc'].get(u)):
                 return 'after join(%d) the joiner read an incomplete trace: %s' % (u, first_diff(m.group(3).split(','), p['conc'].get(u, [])))
     return None
@@ -240,17 +264,20 @@ def oracle(case, impl, spec):
 
 def corr(case, impl, model):
     p = parse_impl(impl)
-    if 'bad' in p:
-        return None        # the oracle reports it
+    if 'bad' in p or 'invalid' in p:
+        return None        # the oracle reports it / out of contract
     ms = parse_sections(model)
     if not ms:
         return 'model transcript malformed: ' + model[:200]
     mtr, mcells, mseen, mflags = ms
     if mflags != 'ok':
         return 'model flags %s (generator should have filtered this case)' % mflags
+    live = spawned(case)
     for t in sorted(mtr):
         want = canon(mtr[t], digests=False)
         for name, got in (('together', p['conc'].get(t)), ('alone', p['alone'].get(t))):
+            if name == 'alone' and t not in live:
+                continue
             if got is None:
                 if name == 'alone' and t == 0:
                     continue
@@ -272,7 +299,9 @@ def corr(case, impl, model):
                     return 'thread %d (%s): finalised %s while the model keeps it (rooted)' % (t, name, sorted(ci - cm))
     if p['cells'] != mcells:
         return 'counters %s, model %s' % (p['cells'], mcells)
-    if canon_seen(p['seen']) != canon_seen(mseen):
+    okp = joined_peeks(case)
+    keep = lambda l: [x for n, x in enumerate(l) if n < len(okp) and okp[n]]
+    if keep(canon_seen(p['seen'])) != keep(canon_seen(mseen)):
         return 'peeks differ: %s / %s' % (p['seen'][:200], mseen[:200])
     for k in ('double', 'unfin', 'rootkill', 'stale', 'unjoined'):
         if int(p['x'].get(k, 0)):
@@ -291,6 +320,40 @@ def canon_seen(s):
 def nontrivial(case, impl):
     m = re.search(r'maxpar=(\d+)', impl)
     return bool(m) and int(m.group(1)) >= 2
+
+
+def top_statements(prog):
+    """a program's top-level statements (balanced bracket groups stay together)"""
+    out, cur, depth = [], [], 0
+    for t in prog.split():
+        cur.append(t)
+        if t[0] == '[' or t[0] == 'W':
+            depth += 1
+        elif t == '}' or t == ')':
+            depth -= 1
+        if depth == 0:
+            out.append(' '.join(cur)); cur = []
+    if cur:
+        out.append(' '.join(cur))
+    return out
+
+
+def split(case):
+    """shrinking unit = one top-level statement of one thread (an unspawned thread simply never runs)"""
+    f = case.split('|')
+    toks = []
+    for t, prog in enumerate(f[2:]):
+        toks += ['%d:%s' % (t, st) for st in top_statements(prog)]
+    return (f[0], f[1], len(f) - 2), toks
+
+
+def join(pre, toks):
+    nm, sched, n = pre
+    progs = [[] for _ in range(n)]
+    for tk in toks:
+        t, st = tk.split(':', 1)
+        progs[int(t)].append(st)
+    return '%s|%s|%s' % (nm, sched, '|'.join(' '.join(p) for p in progs))
 
 
 CORPUS = [
@@ -331,12 +394,20 @@ def run(ctx):
     ]
     ctx.coq()
     h = ctx.build_harness('threads.c')
-    env = dict(os.environ, H_TIMEOUT='40')
+    env = dict(os.environ, H_TIMEOUT='20')
+    drv = None
     stats = ctx.cov.setdefault('harness_counters', {'cases_with_trylock_contention': 0, 'trylock_misses': 0,
                                                     'max_threads_simultaneously_running': 0, 'maxpar_histogram': {}})
 
     def run_impl(cs):
-        out = ctx.run_lines(h, cs, env=env, timeout=3000)[1]
+        if drv:
+            # never run a program on the library that the machine says is out of contract (deadlock = 20 s)
+            sp = ctx.run_lines(drv, cs, args=['spec'])[1]
+            good = [c for c, x in zip(cs, sp) if x.endswith('# ok')]
+            res = iter(ctx.run_lines(h, good, env=env, timeout=3000)[1]) if good else iter([])
+            out = [next(res) if x.endswith('# ok') else 'INVALID ' + x.split(' # ')[-1] for x in sp]
+        else:
+            out = ctx.run_lines(h, cs, env=env, timeout=3000)[1]
         for o in out:
             m = re.search(r'miss=(\d+) maxpar=(\d+)', o)
             if m:
@@ -363,7 +434,7 @@ def run(ctx):
     else:
         run_model = None
         run_spec = lambda cs: [''] * len(cs)
-    d = vlib.Differential(ctx, 'threads', run_impl, run_model, run_spec, oracle, corr, nontrivial)
+    d = vlib.Differential(ctx, 'threads', run_impl, run_model, run_spec, oracle, corr, nontrivial, split if drv else None, join if drv else None)
     safe = drv is None
 
     def usable(cases):
